@@ -28,6 +28,7 @@ import (
 	"verifharness/internal/c20"
 	"verifharness/internal/common"
 	"verifharness/internal/corpus"
+	"verifharness/internal/flagtable"
 	"verifharness/internal/inventory"
 	"verifharness/internal/synth"
 )
@@ -67,6 +68,7 @@ var gens = map[string]func(outDir string) error{
 	"stateinv":  inventory.GenStateInventory,
 	"maprange":  inventory.GenMapRangeSites,
 	"mutsites":  inventory.GenMutationSites,
+	"flagtable": flagtable.Gen,
 }
 
 func main() {
